@@ -3,6 +3,8 @@ package http2
 import (
 	"bufio"
 	"io"
+	"runtime"
+	"strings"
 	"time"
 
 	"github.com/valyala/fasthttp"
@@ -94,7 +96,47 @@ func vSettle() {
 		vQuiesce()
 		return
 	}
-	time.Sleep(20 * time.Millisecond)
+	// Natively: until two looks 5 ms apart show every other goroutine of the
+	// package parked in the same place (none running or runnable), for at most
+	// 2 s. A fixed sleep is not enough on a loaded machine.
+	time.Sleep(5 * time.Millisecond)
+	prev := ""
+	for i := 0; i < 400; i++ {
+		cur, busy := vGoroutineStates()
+		if !busy && cur == prev {
+			return
+		}
+		prev = cur
+		time.Sleep(5 * time.Millisecond)
+	}
+}
+
+// vGoroutineStates summarises where the other goroutines are (id, state and
+// top frame of each) and whether any of them could still make a move.
+func vGoroutineStates() (string, bool) {
+	buf := make([]byte, 1<<20)
+	buf = buf[:runtime.Stack(buf, true)]
+	var b strings.Builder
+	busy := false
+	for i, g := range strings.Split(string(buf), "\n\n") {
+		if i == 0 {
+			continue // the caller
+		}
+		lines := strings.SplitN(g, "\n", 3)
+		if len(lines) < 2 {
+			continue
+		}
+		head := lines[0]
+		if strings.Contains(head, "[running]") || strings.Contains(head, "[runnable]") || strings.Contains(head, "[sleep]") {
+			if strings.Contains(g, "github.com/dgrr/http2.") {
+				busy = true
+			}
+		}
+		b.WriteString(head)
+		b.WriteString(lines[1])
+		b.WriteByte(';')
+	}
+	return b.String(), busy
 }
 
 // replies drains the frames queued for the peer since the last call.
